@@ -651,7 +651,6 @@ func (w *World) implicitFormatCallees(site ssa.CallInstruction, callee *ssa.Func
 	return out
 }
 
-
 // paramOf is the i-th parameter of fn counted as on the pinned tree (receiver = 0); nil when there is none (a method
 // that became a plain function has no parameter 0 any more).
 func paramOf(fn *ssa.Function, i int) ssa.Value {
@@ -666,7 +665,6 @@ func paramOf(fn *ssa.Function, i int) ssa.Value {
 	}
 	return fn.Params[i]
 }
-
 
 // foldFormat gives the format of a fmt call with the constant string operands of %s / %v verbs written into it, and the
 // operands that remain: Fprintf(w, "%s: %d\r\n", "Content-Length", n) reads as ("Content-Length: %d\r\n", [n]).
@@ -718,7 +716,6 @@ func (w *World) foldFormat(c ssa.CallInstruction) (string, []ssa.Value, bool) {
 	}
 	return out.String(), rest, true
 }
-
 
 // isParamSSA: v is fn.Params[i] exactly (SSA position, receiver included when there is one).
 func isParamSSA(fn *ssa.Function, v ssa.Value, i int) bool {
